@@ -514,16 +514,17 @@ Qed.
 
 (* what remains: the ring of a has room at every access (loom's history bound),
    and the replayed path holds only candidate indices at the accesses to a *)
-Definition SideOK2 (a : nat) (e : exec) (me : nat) : Prop :=
+Definition SideOK2 (a : nat) (e : exec) (me : nat) (m : micro) : Prop :=
   (forall s, get_atomic e a = Some s -> at_cnt s < MAX_ATOMIC_HISTORY) /\
-  (forall seed e2 idx l,
-     choose_store (causality_inc e me) seed = (e2, inl idx) -> seed = Some l -> In idx l).
+  (forall s t0 seed e2 idx l,
+     get_atomic e a = Some s -> get_thread e me = Some t0 -> micro_seed s me t0 m = Some seed ->
+     choose_store (causality_inc e me) seed = (e2, inl idx) -> seed = Some l -> l <> [] -> In idx l).
 
 Definition RunOK2 (p : prog) (pa : path) (a : nat) : Prop :=
   forall e me t m rest,
     steps (init_exec p pa) e -> e_active e = Some me ->
     nth_error (e_threads e) me = Some t -> t_cont t = m :: rest -> acc_on a m ->
-    SideOK2 a (upd_thread e me (fun t => th_set_cont t rest)) me.
+    SideOK2 a (upd_thread e me (fun t => th_set_cont t rest)) me m.
 
 Theorem RunOK2_RunOK : forall p pa a,
   max_threads (p_cfg p) <= MAX_THREADS -> RunOK2 p pa a -> RunOK p pa a.
